@@ -15,6 +15,7 @@ KEYS = ("c04_allocate",)
 def jobs(pid, tier, seed):
     out = [{"kind": "fill", "allow_list": a, "usage": u} for a in (True, False) for u in ((True, False) if tier == "thorough" else (False,))]
     out += [{"kind": "holes", "allow_list": a, "level": l} for a in (True, False) for l in (1, 2, 3)]
+    out += [{"kind": "still-held", "variant": v} for v in range(16)]
     out += [{"kind": "retire", "allow_list": a, "level": l, "how": h, "warm": w, "usage": u}
             for a in (True, False) for l in (1, 2) for h in ("release", "close", "close-two-sides", "expiry-one", "restart-close")
             for w in (0, 1) for u in (0, 1) if l == 1 or (w == 1 and u == 0 and (a or tier == "thorough"))]
@@ -84,6 +85,8 @@ def run_job(pid, job, acc):
                  quiesce=False, post=post)
     elif k == "holes":
         run_holes(job, acc)
+    elif k == "still-held":
+        run_still_held(job, acc)
     elif k == "retire":
         run_retire(job, acc)
     elif k == "fill":
@@ -128,6 +131,49 @@ def run_holes(job, acc):
                 "timer": True, "quiesce": False}
         acc.cases += 1
         acc.absorb_tracker(ex.tracker, w, hhash(base["history"]), base, KEYS)
+    finally:
+        ex.close()
+
+
+def run_still_held(job, acc):
+    """The allocating side holds its nameplate through anything other sides (or it, on other nameplates) do:
+    it also holds a second nameplate and releases that one; another side claims and releases the allocated one;
+    other connections come and go.  The next allocate must not return the allocated name."""
+    v = job["variant"]
+    cfg = Config(usage=bool(v & 1), allow_list=bool(v & 2))
+    case = "still-held:%d" % v
+    b = HB()
+    for i in range(1, 10):
+        if i != 5:
+            c = b.conn("app", "s9")
+            b.send(c, type="claim", nameplate="%d" % i)
+    A = b.conn("app", "s1")
+    b.send(A, type="allocate")                     # gets "5"
+    A2 = b.conn("app", "s1")
+    b.send(A2, type="claim", nameplate="77" if v & 4 else "x")
+    if v & 8:
+        b.send(A2, type="open", mailbox={"$claimed": A2})
+    b.send(A2, type="release")
+    if v & 8:
+        b.send(A2, type="close", mood="happy")
+    B = b.conn("app", "s2")
+    b.send(B, type="claim", nameplate={"$alloc": A})
+    b.send(B, type="release")
+    b.drop(A)
+    b.send(B, type="list")
+    C = b.conn("app", "s3")
+    b.send(C, type="allocate")
+    C2 = b.conn("app", "s4")
+    b.send(C2, type="allocate")
+    ex = Exec(cfg, seed=v)
+    try:
+        ex.start()
+        ex.run(b.h, stop_prop="C04")
+        acc.ev["c04_still_held_scenario"] += 1
+        base = {"property": "C04", "kind": "history", "cfg": cfg.to_json(), "seed": v, "history": b.h, "case": case,
+                "timer": True, "quiesce": False}
+        acc.cases += 1
+        acc.absorb_tracker(ex.tracker, ex.world, hhash(b.h), base, KEYS)
     finally:
         ex.close()
 
